@@ -1,4 +1,83 @@
 package main
 
+// Opt-in model of timers that fire (verifnd.TimersFire()).  Computation is instantaneous: the
+// model clock advances only when no thread can run, and then exactly to the earliest pending
+// timer deadline, whose channel receives its value (discrete-event semantics).  Deadlines are
+// terms: which pending timer is the earliest is decided by the solver (a fork per undecided
+// comparison), so durations may be symbolic; timers that expire at the same instant fire in
+// creation order (the other order at an exact tie is not explored).  time.Sleep becomes "block until a timer of that duration fires".
+// What this does not explore: a timer expiring while some thread could still run (a slow
+// thread) - stated as a bound by the harnesses that opt in.
+
+type modelTimer struct {
+	ch       *Chan
+	deadline *Term
+	fired    bool
+	stopped  bool
+	seq      int
+}
+
+func (w *World) timersFire() bool { _, ok := w.ext["timersfire"]; return ok }
+
+func (w *World) timerList() []*modelTimer {
+	if v, ok := w.ext["timers"]; ok {
+		return v.([]*modelTimer)
+	}
+	return nil
+}
+
+// newModelTimer registers a pending timer for now+d and returns its channel.
+func (w *World) newModelTimer(fr *frame, d *Term) *Chan {
+	ch := w.newChan(1)
+	zero := w.tt.BV(64, 0)
+	neg := w.tt.Cmp(OpSLt, d, zero)
+	if neg == w.tt.T {
+		d = zero
+	} else if neg != w.tt.F {
+		d = w.tt.Ite(neg, zero, d)
+	}
+	l := w.timerList()
+	w.ext["timers"] = append(l[:len(l):len(l)], &modelTimer{ch: ch, deadline: w.tt.Bin(OpAdd, w.now(), d), seq: len(l)})
+	w.res.Models["timers fire when no thread can run (discrete-event clock)"] = true
+	return ch
+}
+
+func (w *World) stopModelTimer(ch *Chan) bool {
+	for _, mt := range w.timerList() {
+		if mt.ch == ch {
+			was := !mt.fired && !mt.stopped
+			mt.stopped = true
+			return was
+		}
+	}
+	return false
+}
+
 // fireNextTimer advances the model clock to the next pending timer, if any.
-func (w *World) fireNextTimer() bool { return false }
+func (w *World) fireNextTimer() bool {
+	if !w.timersFire() {
+		return false
+	}
+	var best *modelTimer
+	for _, mt := range w.timerList() {
+		if mt.fired || mt.stopped {
+			continue
+		}
+		if best == nil {
+			best = mt
+			continue
+		}
+		earlier := w.tt.Cmp(OpSLt, mt.deadline, best.deadline)
+		if earlier == w.tt.T || (earlier != w.tt.F && w.decideBool(earlier, "timer order")) {
+			best = mt
+		}
+	}
+	if best == nil {
+		return false
+	}
+	best.fired = true
+	// invariant: the clock never passes a pending deadline, so the earliest one is >= now
+	w.setNow(best.deadline)
+	w.chanPush(best.ch, w.mkTime(best.deadline))
+	return true
+}
